@@ -10,6 +10,11 @@ NOTE = ("trusted: Coq kernel + VM; the Rust->Gallina transcription (sampled by t
 claimed = {
  'C04': ('layout theorems (Coq) + differential correspondence', '6 C04', 'per type the decoded message equals the ITU layout function of the payload bits (types 5, 15, 24 by correspondence only so far)'),
  'C09': ('dispatch theorem (Coq, 64-way case split) + differential correspondence', '6 C09', ''),
+ 'C02': ('grammar/checksum theorems (Coq) + differential correspondence on outcome and checksum values', '6 C02', ''),
+ 'C06': ('invariant of a ghost-instrumented state machine by induction over histories (Coq) + exhaustive short histories and random long ones against the implementation', '6 C06', ''),
+ 'C07': ('sentence-shape theorems (Coq) + differential correspondence on sentence fields', '6 C07', ''),
+ 'C08': ('accepted <-> WellFormed, both directions (Coq) + mutation / near-miss correspondence', '6 C08', ''),
+ 'C17': ('state-transparency theorems lifted to histories (Coq) + metamorphic insert/remove runs and two-parser interleavings', '6 C17', 'independence of parser instances is validated, not proved'),
 }
 pending = {}
 props = [json.loads(l) for l in open(os.path.join(V, 'properties.jsonl'))]
